@@ -70,6 +70,9 @@ func (c C10Case) positions() []string {
 		ps = append(ps, "h:"+strconv.Itoa(i))
 	}
 	ps = append(ps, "cond")
+	// the route function calls a registration method that panics by contract (Handle on a
+	// pattern that is already registered): the panic is raised inside the library
+	ps = append(ps, "h:handle-twice")
 	// the routing-error path: container filters run around the service-error writer
 	for _, f := range c.Container {
 		ps = append(ps, "404/"+f.ID+":before", "404/"+f.ID+":after")
@@ -108,15 +111,17 @@ func genC10(t *rapid.T) C10Case {
 const c10PanicHeader = "X-Panic-At"
 
 type c10Env struct {
-	ct         *restful.Container
-	recCalls   int
-	recValue   interface{}
-	recWrote   []byte
-	written    bytes.Buffer // bytes handed to the response by filters and handler, in order
-	writeCalls int          // number of Write calls (a zero-byte Write already commits the status)
-	ledger     *harness.Ledger
-	recBody    []byte
-	customBody []byte
+	ct          *restful.Container
+	recCalls    int
+	recValue    interface{}
+	recWrote    []byte
+	written     bytes.Buffer // bytes handed to the response by filters and handler, in order
+	writeCalls  int          // number of Write calls (a zero-byte Write already commits the status)
+	ledger      *harness.Ledger
+	recBody     []byte
+	customBody  []byte
+	handleCalls int
+	dead        bool // a request hung; nothing more can be learned from this container
 }
 
 func buildC10(c C10Case) *c10Env {
@@ -182,6 +187,12 @@ func buildC10(c C10Case) *c10Env {
 		rb.Filter(mk(f))
 	}
 	ws.Route(rb.To(func(req *restful.Request, resp *restful.Response) {
+		if req.Request.Header.Get(c10PanicHeader) == "h:handle-twice" {
+			e.handleCalls++
+			pat := "/mounted-" + strconv.Itoa(e.handleCalls)
+			ct.Handle(pat, http.NotFoundHandler())
+			ct.Handle(pat, http.NotFoundHandler()) // panics: pattern already registered
+		}
 		for i, n := range c.Chunks {
 			maybePanic(req.Request, "h:"+strconv.Itoa(i))
 			b := payload(n, i)
@@ -201,6 +212,7 @@ type c10Resp struct {
 	coded   string
 	escaped interface{}
 	decErr  error
+	hung    string // the request did not return within 20s
 }
 
 func (e *c10Env) send(c C10Case, pos string) c10Resp {
@@ -220,7 +232,9 @@ func (e *c10Env) send(c C10Case, pos string) c10Resp {
 	hr := harness.NewHTTPRequest(req, "0")
 	w := httptest.NewRecorder()
 	var r c10Resp
-	func() {
+	served := make(chan struct{})
+	go func() {
+		defer close(served)
 		defer func() { r.escaped = recover() }()
 		if c.Via == harness.ViaServe {
 			e.ct.ServeHTTP(w, hr)
@@ -228,6 +242,17 @@ func (e *c10Env) send(c C10Case, pos string) c10Resp {
 			e.ct.Dispatch(w, hr)
 		}
 	}()
+	select {
+	case <-served:
+	case <-time.After(20 * time.Second):
+		buf := make([]byte, 1<<20)
+		buf = buf[:runtime.Stack(buf, true)]
+		r.hung = "inconclusive"
+		if strings.Contains(string(buf), "sync.(*RWMutex).RLock") || strings.Contains(string(buf), "sync.(*RWMutex).Lock") {
+			r.hung = "a goroutine is parked on the container's RWMutex"
+		}
+		return r
+	}
 	r.status = w.Code
 	r.coded = w.Header().Get("Content-Encoding")
 	raw := w.Body.Bytes()
@@ -252,7 +277,18 @@ func (e *c10Env) send(c C10Case, pos string) c10Resp {
 
 // judge one panicking (or normal) request on env; twin answers the normal request freshly.
 func (e *c10Env) judge(c C10Case, pos, where string) (vs []*Violation) {
+	if e.dead {
+		return nil
+	}
 	r := e.send(c, pos)
+	if r.hung != "" {
+		e.dead = true
+		if r.hung == "inconclusive" {
+			inconclusive("C10", "TestC10", "a request did not return within 20s and no goroutine is parked on the RWMutex")
+			return nil
+		}
+		return []*Violation{viol("", "%s: the request never returns: %s (a lock was left held by an earlier panic)", where, r.hung)}
+	}
 	before := append([]byte{}, e.written.Bytes()...)
 	if pos == "" {
 		tw := buildC10(c)
@@ -263,8 +299,12 @@ func (e *c10Env) judge(c C10Case, pos, where string) (vs []*Violation) {
 		}
 		return vs
 	}
+	libraryPanic := pos == "h:handle-twice"
 	if c.Recovery == "off" {
 		tok, ok := r.escaped.(*panicToken)
+		if libraryPanic {
+			ok, tok = r.escaped != nil, &panicToken{pos}
+		}
 		if !ok || tok.pos != pos {
 			vs = append(vs, viol("", "%s: recovery is off, the caller must see the panic value unchanged; got %v", where, r.escaped))
 		}
@@ -280,7 +320,7 @@ func (e *c10Env) judge(c C10Case, pos, where string) (vs []*Violation) {
 		if e.recCalls != 1 {
 			vs = append(vs, viol("", "%s: the recover handler ran %d times", where, e.recCalls))
 		}
-		if tok, ok := e.recValue.(*panicToken); !ok || tok.pos != pos {
+		if tok, ok := e.recValue.(*panicToken); !libraryPanic && (!ok || tok.pos != pos) {
 			vs = append(vs, viol("", "%s: the recover handler received %v, not the panic value", where, e.recValue))
 		}
 		want := append(before, e.customBody...)
@@ -291,8 +331,11 @@ func (e *c10Env) judge(c C10Case, pos, where string) (vs []*Violation) {
 			vs = append(vs, viol("", "%s: nothing had been written, the client must see the recover handler's status 503, got %d", where, r.status))
 		}
 	} else {
-		if !bytes.HasPrefix(r.body, before) || !bytes.Contains(r.body[len(before):], []byte("recover from panic situation")) {
+		report := []byte("recover from panic situation: - ")
+		if !bytes.HasPrefix(r.body, before) || !bytes.HasPrefix(r.body[len(before):], report) {
 			vs = append(vs, viol("", "%s: the client sees %d bytes that are not the %d bytes written before the panic followed by the default recover handler's report", where, len(r.body), len(before)))
+		} else if n := bytes.Count(r.body[len(before):], report); n != 1 {
+			vs = append(vs, viol("", "%s: the body carries %d panic reports; this request panicked once (reports of earlier requests leak into it)", where, n))
 		}
 		if e.writeCalls == 0 && r.status != 500 {
 			vs = append(vs, viol("", "%s: nothing had been written, the client must see status 500, got %d", where, r.status))
@@ -302,6 +345,9 @@ func (e *c10Env) judge(c C10Case, pos, where string) (vs []*Violation) {
 }
 
 func (e *c10Env) usable(c C10Case, where string) (vs []*Violation) {
+	if e.dead {
+		return nil
+	}
 	if h := e.ledger.Held(); h != 0 {
 		vs = append(vs, viol("", "%s: %d compressors are still held", where, h))
 	}
